@@ -25,7 +25,7 @@ def run(chk):
     # derivative tables on every facet of the tensor-product cells (their facets differ in which reference
     # derivative is constant along them)
     der = [c for c in fc if c["term"] in ("flux", "avgflux") and c["cell"] in ("quadrilateral", "hexahedron", "prism") and c["rule"] != "vertex"]
-    sel += [c for c in s5.sample_cases(der, 4 if quick else 40, chk.seed + 3, max_cost=80) if c not in sel]
+    sel += [c for c in s5.sample_cases(der, 4 if quick else 40, chk.seed + 3, max_cost=40 if quick else 400) if c not in sel]
     # geometric quantities lowered to raw vertex access (circumradius, diameter, edge lengths), with restrictions
     geo = [c for c in fc if c["term"] in ("geods", "geodS")]
     sel += [c for c in s5.sample_cases(geo, 6 if quick else 42, chk.seed + 4, max_cost=80) if c not in sel]
